@@ -1229,6 +1229,9 @@ func funLeft(v string, ld int) (string, error) {
 	if l > len(v) {
 		l = len(v)
 	}
+	if l < 0 {
+		l = 0
+	}
 	return v[:l], nil
 }
 
@@ -1236,6 +1239,9 @@ func funRight(v string, ld int) (string, error) {
 	l := ld
 	if l > len(v) {
 		l = len(v)
+	}
+	if l < 0 {
+		l = 0
 	}
 	return v[len(v)-l:], nil
 }
@@ -1253,6 +1259,9 @@ func funUpper(v string) (string, error) {
 }
 
 func funLpad(s, ps string, l int) (string, error) {
+	if l < 0 {
+		l = 0
+	}
 	if len(s) > int(l) {
 		return s[:int(l)], nil
 	}
@@ -1260,6 +1269,9 @@ func funLpad(s, ps string, l int) (string, error) {
 }
 
 func funRpad(s, ps string, l int) (string, error) {
+	if l < 0 {
+		l = 0
+	}
 	if len(s) > int(l) {
 		return s[:int(l)], nil
 	}
@@ -1270,8 +1282,14 @@ func funMid(s string, start, end int) (string, error) {
 	if start < 0 {
 		start = 0
 	}
+	if start > len(s) {
+		start = len(s)
+	}
 	if end > len(s) {
 		end = len(s)
+	}
+	if end < start {
+		end = start
 	}
 	return s[start:end], nil
 }
